@@ -11,7 +11,9 @@ and the Coq models are evaluated at Qc on the same inputs (Harness/HC16.v) -- va
 
 Spec-on-impl (every run, exact Fractions): loss = reference surrogate recomputed from the rollout, gradients =
 reference gradients, baseline values carry no gradient, shared advantages sum to zero per instance, rewards of
-real policies carry no gradient, invariance loss pairs the views of one instance."""
+real policies carry no gradient, invariance loss pairs the views of one instance; the VALUE of the invariance loss on
+embeddings with rational norms (Pythagorean vectors) = mean over (batch, nodes) of the summed cosine similarities with
+view 0 (Coq model Train/InvLoss.v + exact Fractions); POMO training with a single start is refused."""
 import math
 from fractions import Fraction
 
@@ -313,9 +315,14 @@ def unit_pomo(ctx, T, fails, mult=1):
                 pol.next = out
                 batch = env.generator(batch_size=[B])
                 if S == 1:
+                    # guard: with one start the shared baseline IS the reward, the advantage is identically zero
+                    # (no learning signal); the code refuses such a training step
                     try:
                         model.shared_step(batch, 0, phase="train")
                         ctx.count("pomo_single_start_accepted")
+                        fails.add("pomo/shared: training-with-a-single-start-is-not-refused",
+                                  {"unit": "POMO.shared_step", "B": B, "num_starts": S, "phase": "train", "reward": r, "log_likelihood": l,
+                                   "observed": "returned a loss", "expected": "AssertionError 'num_starts must be > 1 during training'"})
                     except AssertionError:
                         ctx.count("pomo_single_start_rejected_by_assert")
                     continue
@@ -458,6 +465,92 @@ def unit_symnco(ctx, T, fails, mult=1):
                 ctx.count("symnco_cases")
                 ctx.count("augment_factor_%d" % A)
                 ctx.count("symnco_num_starts_%d" % S)
+    return cases, metas
+
+
+# ============================================================================================== invariance loss VALUE
+SIG_INV_VALUE = "symnco/invariance_loss: value-is-not-the-mean-over-(batch,nodes)-of-the-summed-cosine-similarities-with-view-0"
+# integer vectors with integer Euclidean norm (Pythagorean tuples), by dimension
+PYTH = {2: [((3, 4), 5), ((1, 0), 1), ((5, 12), 13), ((8, 15), 17), ((0, 2), 2), ((20, 21), 29)],
+        3: [((1, 2, 2), 3), ((2, 3, 6), 7), ((4, 4, 7), 9), ((0, 3, 4), 5), ((1, 0, 0), 1), ((2, 6, 9), 11)],
+        4: [((1, 1, 1, 1), 2), ((2, 4, 5, 6), 9), ((1, 2, 2, 4), 5), ((0, 0, 3, 4), 5), ((1, 1, 3, 5), 6), ((0, 1, 0, 0), 1)]}
+
+
+def unit_invloss(ctx, T, fails, mult=1):
+    """the real symnco.losses.invariance_loss on embeddings with RATIONAL norms (Pythagorean vectors, signs / coordinate
+    order / dyadic scale varied), so that every cosine is an exact rational: value compared with the Coq model
+    (Train/InvLoss.v at Qc, norms supplied and checked) and with the exact Fraction recomputation below.  For B > 1 both
+    follow the code's own '(b a)' pairing (the pairing itself is the known finding of unit_symnco)."""
+    import random as _random
+    torch = T["torch"]
+    from rl4co.models.zoo.symnco.losses import invariance_loss
+    irng = _random.Random("C16-invariance-value-%s" % ctx.seed)     # own stream: the other units' draws stay as they were
+    EPS = Fraction(1, 10 ** 8)
+    cases, metas = [], []
+
+    def rand_vec(d):
+        base, nrm = PYTH[d][irng.randrange(len(PYTH[d]))]
+        xs = list(base)
+        irng.shuffle(xs)
+        xs = [x * irng.choice([1, -1]) for x in xs]
+        sc = irng.choice([Fraction(1, 2), Fraction(1), Fraction(2), Fraction(4)])
+        return [Fraction(x) * sc for x in xs], Fraction(nrm) * sc
+
+    def run_one(rows, A, dt, tag):
+        """rows: [(b a)][node] = (vector of Fractions, norm)"""
+        pe = torch.tensor([[[float(x) for x in v] for v, _ in row] for row in rows], dtype=dt)
+        raised, obs = None, None
+        try:
+            obs = float(invariance_loss(pe, A))
+        except Exception as e:  # noqa: BLE001 -- the model says None exactly when the code raises
+            raised = "%s: %s" % (type(e).__name__, str(e)[:100])
+        n_rows, n = len(rows), len(rows[0])
+        exp = None
+        if A >= 2 and n_rows % A == 0:
+            B = n_rows // A
+            tot = Fraction(0)
+            for b in range(B):
+                for j in range(n):
+                    u, nu = rows[b * A][j]
+                    for i in range(1, A):
+                        v, nv = rows[b * A + i][j]
+                        tot += sum(x * y for x, y in zip(u, v)) / (max(nu, EPS) * max(nv, EPS))
+            exp = tot / (B * n)
+        tol = Fraction(1, 10 ** 6) if dt == torch.float32 else Fraction(1, 10 ** 12)
+        replay = {"unit": "symnco.losses.invariance_loss", "num_augment": A, "dtype": str(dt),
+                  "proj_embed[(b a)][node][d]": [[[float(x) for x in v] for v, _ in row] for row in rows],
+                  "norms[(b a)][node]": [[float(nv) for _, nv in row] for row in rows],
+                  "observed": obs if raised is None else "raised " + raised,
+                  "expected": None if exp is None else float(exp),
+                  "what": "L_inv = mean over (b, node) of sum_{i=1}^{A-1} cos(pe[b,0,node], pe[b,i,node]), pe = rearrange(proj_embed, '(b a) ... -> b a ...')"}
+        if exp is None:
+            if raised is None:
+                fails.add("symnco/invariance_loss: fewer-than-two-views-or-ragged-regroup-not-rejected", replay)
+        elif raised is not None or abs(Fraction(obs) - exp) > tol * (1 + abs(exp)):
+            fails.add(SIG_INV_VALUE, replay)
+        cases.append("(%s, %s, %s, %s, (%s, %s))" % (
+            cq(tol), cq(EPS), cnat(A),
+            clist(clist("(%s, %s)" % (clist(cq(x) for x in v), cq(nv)) for v, nv in row) for row in rows),
+            cbool(raised is not None), cq(F(obs) if obs is not None and math.isfinite(obs) else Fraction(0))))
+        metas.append({"unit": "invariance_loss", "tag": tag, "A": A, "rows": n_rows, "nodes": n, "dtype": str(dt)})
+        ctx.seen({"inv": [A, str(dt), [[[str(x) for x in v] for v, _ in row] for row in rows]]}, nontrivial=A >= 2 and n_rows >= A)
+        ctx.count("invariance_value_cases")
+
+    # the audit's input: views [[3,4],[1,0]] / [[4,3],[0,1]], B = 1, A = 2 -> (24/25 + 0) / 2 = 0.48
+    F_ = Fraction
+    fixed = [[([F_(3), F_(4)], F_(5)), ([F_(1), F_(0)], F_(1))], [([F_(4), F_(3)], F_(5)), ([F_(0), F_(1)], F_(1))]]
+    for dt in (torch.float32, torch.float64):
+        run_one(fixed, 2, dt, "audit-0.48")
+    reps = 2 * mult
+    for B in (1, 2, 3):
+        for A in (2, 3, 4):
+            for rep in range(reps):
+                d, n = irng.choice([2, 3, 4]), irng.choice([1, 2, 3])
+                rows = [[rand_vec(d) for _ in range(n)] for _ in range(B * A)]
+                run_one(rows, A, torch.float32 if rep % 2 == 0 else torch.float64, "grid")
+    # rejected inputs: a single view (sum([]) is the python int 0: no .mean()), a row count that is not a multiple of A
+    run_one([[rand_vec(2) for _ in range(2)] for _ in range(2)], 1, torch.float32, "A=1")
+    run_one([[rand_vec(3) for _ in range(2)] for _ in range(3)], 2, torch.float32, "ragged-regroup")
     return cases, metas
 
 
@@ -809,7 +902,8 @@ def evaluate(ctx, name, case_type, check_fn, cases, metas, shard):
     ctx.units[name] = {"cases": len(codes), "disagreements": len(nz)}
     if nz:
         i, c = nz[0]
-        what = {1: "loss", 2: "loss components", 3: "baseline loss", 4: "baseline value", 5: "gradient", 6: "advantage sum"}.get(c % 1000, "?")
+        what = {1: "loss", 2: "loss components", 3: "baseline loss", 4: "baseline value", 5: "gradient", 6: "advantage sum",
+                7: "generated embedding has a wrong norm / ragged tensor", 8: "invariance loss value"}.get(c % 1000, "?")
         ctx.broken.append("correspondence C16/%s: model and implementation differ in %d of %d cases (first: case %d, code %d = step %d, %s) %s"
                           % (name, len(nz), len(codes), i, c, c // 1000, what, metas[i]))
 
@@ -828,7 +922,7 @@ def run(ctx: Ctx, proofs_ok: bool):
                 "tensors with dyadic values (k/64, k/16); batch sizes 1..9 cycled, multi-start 1..4 (POMO), num_starts 0..4 x "
                 "num_augment 1..4 (SymNCO), histories of 1..4 successive steps for stateful baselines with warm-up alpha passing "
                 "0, 1/n.., 1; int reward scale None/2/4; reward leaf requires grad in ~1/3 of the runs (probes the paths the code "
-                "does not detach); PPO: clip in {.125,.2,.25,.5}, mini-batches by the real DataLoader, ratio exactly one and "
+                "does not detach); invariance_loss value: B 1..3 x num_augment 2..4, 1..3 nodes, d 2..4, Pythagorean integer vectors with signs/order/dyadic scale varied, float32 + float64; PPO: clip in {.125,.2,.25,.5}, mini-batches by the real DataLoader, ratio exactly one and "
                 "ratios exp(k/16) crossing the clip range, normalize_adv on/off. non-trivial = at least 2 rows. distinct by hash of inputs")
     ctx.assumptions += [
         "networks, autograd, optimiser, gradient clipping, DataLoader are not modelled: log-likelihoods, critic values, entropies, "
@@ -839,7 +933,9 @@ def run(ctx: Ctx, proofs_ok: bool):
         "sub-gradient conventions of the installed torch at ties (min/max split evenly; clamp passes gradient strictly inside the range); "
         "theorems that depend on them are stated off the tie points; PPO mini-batches at an exact clip boundary are excluded from the gradient comparison",
         "RewardScaler 'norm'/'scale' (running statistics) belong to C20; modelled here: None and int scale",
-        "SymNCO invariance loss (cosine similarity, needs sqrt) enters the loss model as an opaque number; only its row pairing is modelled (index arithmetic)",
+        "SymNCO invariance loss: inside the shared_step loss model it is an opaque number (its gradient is not modelled); its VALUE is modelled "
+        "separately (Train/InvLoss.v) on embeddings that carry their Euclidean norm as checked instance data (norm^2 = <u,u>), so no square "
+        "root is needed; torch's cosine_similarity is taken to be <u,v> / (max(|u|,eps) max(|v|,eps)), eps = 1e-8; the row pairing is index arithmetic",
         "float64 rounding: implementation compared with the exact model to 1e-9 relative",
     ]
     mult = 1 if ctx.tier == "quick" else 3
@@ -852,6 +948,8 @@ def run(ctx: Ctx, proofs_ok: bool):
     evaluate(ctx, "pomo", "Q * bool * option Q * nat * list Q * list Q * Q * list Q", "check_pomo", c, m, 4)
     c, m = unit_symnco(ctx, T, fails, mult)
     evaluate(ctx, "symnco", "Q * bool * nat * nat * Q * Q * list Q * list Q * Q * (Q * Q * Q) * list Q", "check_symnco", c, m, 3)
+    c, m = unit_invloss(ctx, T, fails, mult)
+    evaluate(ctx, "invariance_loss_value", "il_case", "check_invloss", c, m, 20)
     c, m = unit_ppo(ctx, T, fails, mult)
     evaluate(ctx, "ppo", "Q * (Q * Q * Q * bool * Q) * list (Q * Q) * list (Q * Q) * nat * list prow * Q * option (Q * Q * Q) * list Q",
              "check_ppo", c, m, 4)
